@@ -175,7 +175,11 @@ func (a *cfAPI) handle(w http.ResponseWriter, r *http.Request) {
 		for _, rec := range match[lo:hi] {
 			m := map[string]any{"id": rec.ID, "name": rec.Name, "type": rec.Type, "zone_id": z.ID, "zone_name": z.Name, "ttl": 1}
 			if rec.Type == "HTTPS" {
-				m["data"] = map[string]any{"priority": rec.Priority, "target": rec.Target, "value": rec.Value}
+				data := map[string]any{"priority": rec.Priority, "target": rec.Target, "value": rec.Value}
+				if rec.Value == "" && len(rec.ID)%2 == 0 {
+					delete(data, "value") // optional members may be absent: a record without SvcParams
+				}
+				m["data"] = data
 				m["content"] = fmt.Sprintf("%d %s %s", rec.Priority, rec.Target, rec.Value)
 			} else {
 				m["content"] = rec.Value
@@ -376,6 +380,9 @@ func TestC20(t *testing.T) {
 			for i := 0; i < n; i++ {
 				rid++
 				val := genSvcValue(t, "v")
+				if n > 20 && rapid.IntRange(0, 5).Draw(t, "no_params") == 0 {
+					val = "" // a ServiceMode record without SvcParams
+				}
 				if heavy {
 					val = strings.TrimSpace(val + " key64999=" + strings.Repeat("w", 900))
 				}
